@@ -18,8 +18,16 @@
   `Add` and `ReadAndAdd` both leave `c + e` (for every sampler: ring/sampler_*.go, property C17), so the
   two are not distinguished.
 
-  This file follows the code AFTER the fixes C03-1 … C03-8 (/verif/fixes): `c1` is stored for every target
-  of degree ≥ 1, `EncryptZero` clears `Value[2:]`, the error follows the `IsMontgomery` flag on every path.
+  This file follows the code AFTER the fixes C03-1 … C03-11 (/verif/fixes, all applied in /repo): `c1` is stored
+  for every target of degree ≥ 1, `EncryptZero` clears `Value[2:]`, the error follows the `IsMontgomery` flag on
+  every path, `extSmall` reduces modulo each `p_i` (C03-9), `acceptsBounds` is the distribution check of
+  `NewParameters` (C03-10).
+
+  Contents: generic functions (`mulMont`, `montIf`, `clearTail`, `encryptZeroSk/PkNoP/Pk`, `ezSk/ezPkNoP/ezPk`,
+  `addPtToCt`, `encrypt`, `hornerMont`, `decrypt`, `genSecretKey`, `genPublicKey`); the executable carrier `RQ`
+  (standard and conjugate-invariant product, `mont`, `extSmall`, `modDown`, `acceptsBounds`, `encryptAt`, `decryptAt`);
+  `ZPoly` (integer negacyclic ring for the norm statements).  Driver ops: `gensk`, `genpk`, `enc`, `dec`, `accept`.
+  Theorems: Proofs/RLWE.lean, RLWENorm.lean, RLWECI.lean, Props/C03.lean (+ colleagues' Props/C03Ring, C03Stack).
 -/
 import Lattigo.Model.RPoly
 
@@ -230,6 +238,13 @@ def extSmall (ps : List Nat) (x : RQ) : RQ :=
   let prow := fun (p : Nat) => row0.map fun (c : Nat) =>
     if c > q0 / 2 then (p - (q0 - c) % p) % p else c % p
   ⟨x.ci, { qs := x.p.qs ++ ps, c := x.p.c ++ ps.map prow }⟩
+
+/-- The acceptance rule of `rlwe.NewParameters` for the distributions (fix C03-10): when an auxiliary modulus
+    `P` is present, the bounds of the error and of the secret distribution must fit the FIRST prime of `Q`,
+    `2·AbsBound < Q[0]`, because `extSmall` reads the value off limb 0.  `be2 = ⌊2·Xe.AbsBound⌋`,
+    `bs2 = ⌊2·Xs.AbsBound⌋` (the Go test `2*bound >= float64(q[0])` is `⌊2·bound⌋ ≥ q[0]`). -/
+def acceptsBounds (q0 : Nat) (hasP : Bool) (be2 bs2 : Nat) : Bool :=
+  !hasP || (decide (be2 < q0) && decide (bs2 < q0))
 
 /-- `BasisExtender.ModDownQPtoQ`: `x` has `nQ` rows over Q followed by rows over P; the result is
     `(x_Q − δ)·P⁻¹ mod q_i` with `δ ≡ x (mod P)` centred: `δ = ((x_P + ⌊P/2⌋) mod P) − ⌊P/2⌋`. -/
